@@ -29,6 +29,22 @@ HEALTH_ASSUME = [
 ]
 
 PROPS = {
+    "C01": {
+        "streams": ["array", "persist", "settings"], "driver": {"array": "array", "persist": "array", "settings": "settings"}, "level": "proof",
+        "trusted_base": LEAN_TB, "assumptions": ARRAY_ASSUME + [
+            "nested containers as elements are covered by C10's World model, not by these theorems (elements here are plain values of any size and references)",
+            "the guard count < 2^32-1 (maxArrayElementCount) is a hypothesis of insert_refines; at the excluded point the code returns its dedicated error, reproduced by the model"],
+        "rule": "array histories (insert/append/set/remove/get/pop/type/count/iterators, out-of-range requests) at T in {256,257,511,512,1023,1024,32768,random}, 8 element-size profiles (tiny, mid, at the inline limit, externalised, just under half a slab, fixed, quarter, mixture), 5 position profiles, 4 operation mixes; reopen by root ID after commits and crashes; distinct = distinct (T, length) programs",
+        "explanation": "Theorems: get/insert/set/remove/pop/count/setType_refines (the array model refines List operations for EVERY legal threshold, every value size >= 1, every position; in-range requests never fail; root ID and type stable), route_linear_eq_binary. Tie: every operation of every history replayed on the model; observations, net SlabStorage effects, dumps of every stored slab and periodic full-tree dumps must be identical; thresholds and constants compared exhaustively. Oracle: shadow slice.",
+    },
+    "C05": {
+        "streams": ["array", "settings", "map", "mapcollide"], "driver": {"array": "array", "settings": "settings", "map": "map", "mapcollide": "map"}, "level": "proof",
+        "trusted_base": LEAN_TB, "assumptions": ARRAY_ASSUME + [
+            "MAP PART: the map invariant (AtreeProofs/MapInv.lean) is defined and the map model is tied by correspondence, but its preservation theorems are C02's obligations; this check's Lean obligations are the array theorems",
+            "size bands are proved for the Nat model; uint32/uint16 truncation cannot occur because every slab size stays <= 1.5*32768 + one element < 65536 (band theorems)"],
+        "rule": "array and map histories with sizes at maxInline, maxInline+-1, just under T/2, at thresholds {256,257,511,512,1023,1024,32767,32768,random}; all 32513 legal thresholds for the derived limits; VerifyArray/VerifyMap every 25 operations; distinct = distinct programs + thresholds",
+        "explanation": "Theorems: inv_new/insert/set/remove/popIterate/setType (ArrInv: size equations, bands [T/2, 1.5T], per-element inline limit, header copies, cumulative counts, sibling links, >= 2 children at an index root, fresh IDs) for every legal T; full_slab_has_two_elems; two_max_elems_fit; access_agree (positional access = sequential traversal). The arithmetic goes through the regenerated constants: a changed constant that breaks a band stops the proofs. Tie: per-operation dump comparison (every header copy, count sum, size, next link is in the dump). Oracle: VerifyArray / VerifyMap.",
+    },
     "C03": {
         "streams": ["persist", "storage"], "driver": {"persist": "array", "storage": "storage"}, "level": "proof",
         "trusted_base": LEAN_TB, "assumptions": STORAGE_ASSUME + ARRAY_ASSUME + [
